@@ -137,7 +137,7 @@ func ruleEMSPolicy(c *Ctx, r *Report) {
 			continue
 		}
 		r.Sites += len(fn.Blocks)
-		w := (&Walk{Fn: fn, Assume: assumeAll(
+		w := (&Walk{Fn: fn, Follow: followSamePkgExcept(fn, "flight0Parse"), Assume: assumeAll(
 			atomAssume{mLoad(tCfg, "ExtendedMasterSecret"), vInt(req)},
 			atomAssume{mLoad(tSt12, "ExtendedMasterSecret"), vBool(false)},
 			// the invocation that processes the peer's hello
@@ -171,16 +171,25 @@ func ruleCurvePolicy(c *Ctx, r *Report) {
 	if fn == nil {
 		return
 	}
+	// the selection may sit in a private helper of the parser
+	host := fn
 	sel := findCalls(fn, nameIs(pkgF12+".selectEllipticCurve"))
+	if len(sel) == 0 {
+		for _, u := range c.unitFuncs(fn) {
+			if cs := findCalls(u, nameIs(pkgF12+".selectEllipticCurve")); len(cs) > 0 {
+				host, sel = u, cs
+			}
+		}
+	}
 	if len(sel) != 1 {
 		r.Bad(rule, short(fn), c.pos(fn.Pos()), "selectEllipticCurve is not called exactly once")
 		return
 	}
-	r.Sites += len(fn.Blocks)
+	r.Sites += len(host.Blocks)
 	a := sel[0].Call.Args
 	r.Check(isFieldLoad(a[0], tCfg, "EllipticCurves") && isFieldLoad(a[1], "pkg/protocol/extension.SupportedGroups", "Groups"), rule, short(fn)+":args", c.ipos(sel[0]), "selectEllipticCurve(cfg.EllipticCurves, client groups)", "the curve is not selected from (cfg.EllipticCurves, the client's supported_groups)")
 	okV := resultValue(sel[0], 1)
-	w := &Walk{Fn: fn, Assume: failAssumption(okV)}
+	w := &Walk{Fn: host, Assume: failAssumption(okV)}
 	hdr := loopHeaderOf(sel[0].Block())
 	adv := false
 	w.Visit = func(in ssa.Instruction, _ Env) bool {
@@ -191,18 +200,78 @@ func ruleCurvePolicy(c *Ctx, r *Report) {
 		return true
 	}
 	w.After(sel[0])
+	succ := map[ssa.Instruction]bool{}
+	if host != fn {
+		for _, ri := range possibleSuccessReturns(host) {
+			succ[ri] = true
+		}
+	}
 	for _, ro := range w.Returns {
-		if isAdvanceReturn(ro.Ret) {
+		if host == fn && isAdvanceReturn(ro.Ret) {
 			adv = true
+		}
+		if host != fn && succ[ro.Ret] {
+			last := len(ro.Vals) - 1
+			if !(last >= 0 && ro.Vals[last].Kind == 2 && !ro.Vals[last].B) {
+				adv = true
+			}
+		}
+	}
+	if host != fn {
+		// the parser gives up when the helper fails
+		for _, hc := range findCalls(fn, func(n string) bool { return n == short(host) }) {
+			errV := resultValue(hc, hc.Call.Signature().Results().Len()-1)
+			wc := &Walk{Fn: fn, Assume: failAssumption(errV)}
+			wc.After(hc)
+			for _, ro := range wc.Returns {
+				if isAdvanceReturn(ro.Ret) {
+					adv = true
+				}
+			}
 		}
 	}
 	r.Check(!adv, rule, short(fn)+":no-common-curve-fails", c.ipos(sel[0]), "no common curve: the parser fails for every suite", "when the client's groups and the server's curves are disjoint the handshake can continue (for some suites) with a curve the client never offered")
-	// the stored curve is the selected one
+	// the stored curve is the selected one (or, before the extensions are looked at, the first
+	// of the server's own list)
 	for _, st := range c.StoresTo(tSt12, "NamedCurve") {
-		if st.Fn != fn {
+		if st.Fn != host {
 			continue
 		}
-		ok := allLeaves(c.Origins(st.Val, 0), func(v ssa.Value) bool { return isCallResult(v, nameIs(pkgF12+".selectEllipticCurve")) })
+		ok := allLeaves(c.Origins(st.Val, 0), func(v ssa.Value) bool {
+			if isCallResult(v, nameIs(pkgF12+".selectEllipticCurve")) {
+				return true
+			}
+			// element of a list computed from cfg.EllipticCurves
+			if cl, isCall := v.(*ssa.Call); isCall {
+				for _, arg := range cl.Call.Args {
+					if isFieldLoad(arg, tCfg, "EllipticCurves") {
+						return instrReaches(st.Instr, sel[0])
+					}
+				}
+			}
+			if isFieldLoad(v, tCfg, "EllipticCurves") {
+				return instrReaches(st.Instr, sel[0])
+			}
+			x := v
+			if u, isU := x.(*ssa.UnOp); isU {
+				x = u.X
+			}
+			if ia, isIA := x.(*ssa.IndexAddr); isIA {
+				for _, l := range c.Origins(ia.X, 0) {
+					if cl, isCall := l.(*ssa.Call); isCall {
+						for _, arg := range cl.Call.Args {
+							if isFieldLoad(arg, tCfg, "EllipticCurves") {
+								return instrReaches(st.Instr, sel[0])
+							}
+						}
+					}
+					if isFieldLoad(l, tCfg, "EllipticCurves") {
+						return instrReaches(st.Instr, sel[0])
+					}
+				}
+			}
+			return false
+		})
 		r.Check(ok, rule, short(fn)+":stored", c.ipos(st.Instr), "state.NamedCurve = selected curve", "the server stores a curve that is not the result of the intersection")
 	}
 }
